@@ -62,6 +62,17 @@ func (p panicWriter) Write(b []byte) (int, error) {
 func main() {
 	sched := os.Getenv("VICTIM_SCHEDULER") // "", "priority", "random"
 	be := rig.NewBackend(nil)
+	bigChunk := make([]byte, 256<<10)
+	be.PlanFor = func(r *http.Request, tag string) *rig.Plan {
+		if strings.HasPrefix(r.URL.Path, "/big") { // a 48 MiB download, used to stall the proxy's socket writes
+			p := &rig.Plan{Status: 200}
+			for i := 0; i < 192; i++ {
+				p.Chunks = append(p.Chunks, bigChunk)
+			}
+			return p
+		}
+		return nil
+	}
 	fingerproxy.GetHeaderInjectors = func() []reverseproxy.HeaderInjector {
 		inj := fingerproxy.DefaultHeaderInjectors()
 		inj = append(inj, fp.NewFingerprintHeaderInjector("X-Victim-Injector", func(*metadata.Metadata) (string, error) {
